@@ -24,10 +24,24 @@ import (
 )
 
 const (
-	repoDir  = "/repo"
 	verifDir = "/verif"
 	modPath  = "github.com/ichiban/prolog"
 )
+
+// repoDir is /repo. For testing the checks against a seeded change without touching /repo, SYMGO_REPO names a scratch
+// copy of the repository; evidence and replay files then go to SYMGO_OUT (required) instead of /verif. The registered
+// commands never set these.
+var repoDir, outDir = func() (string, string) {
+	if r := os.Getenv("SYMGO_REPO"); r != "" {
+		o := os.Getenv("SYMGO_OUT")
+		if o == "" {
+			fmt.Fprintln(os.Stderr, "SYMGO_REPO needs SYMGO_OUT")
+			os.Exit(2)
+		}
+		return r, o
+	}
+	return "/repo", verifDir
+}()
 
 // HarnessSpec is one entry of /verif/harness/index.json.
 type HarnessSpec struct {
@@ -557,7 +571,7 @@ func cmdCheck(args []string) int {
 			inconclusive = true
 		} else {
 			defer rp.close()
-			os.MkdirAll(filepath.Join(verifDir, "replays", prop), 0o755)
+			os.MkdirAll(filepath.Join(outDir, "replays", prop), 0o755)
 			seen := map[string]bool{}
 			n := 0
 			for _, v := range a.viols {
@@ -567,7 +581,7 @@ func cmdCheck(args []string) int {
 				}
 				seen[key] = true
 				n++
-				path := filepath.Join(verifDir, "replays", prop, fmt.Sprintf("%s_%d_%d.json", v.Harness, v.Instance, n))
+				path := filepath.Join(outDir, "replays", prop, fmt.Sprintf("%s_%d_%d.json", v.Harness, v.Instance, n))
 				b, _ := json.MarshalIndent(v, "", " ")
 				os.WriteFile(path, b, 0o644)
 				verdict := rp.replay(path, harnessPkg[v.Harness])
@@ -773,6 +787,6 @@ func writeEvidence(prop, tier string, seed int, idx *Index, specs []HarnessSpec,
 		"violations":  confirmed,
 	}
 	b, _ := json.MarshalIndent(ev, "", " ")
-	os.MkdirAll(filepath.Join(verifDir, "evidence"), 0o755)
-	os.WriteFile(filepath.Join(verifDir, "evidence", prop+".json"), b, 0o644)
+	os.MkdirAll(filepath.Join(outDir, "evidence"), 0o755)
+	os.WriteFile(filepath.Join(outDir, "evidence", prop+".json"), b, 0o644)
 }
